@@ -105,6 +105,11 @@ def run_template(prop, template_path, repo_root=None, rlimit=30, timeout=600, ex
     for d in errors:
         msg = d.get("message", "")
         prim = next((s for s in d.get("spans", []) if s.get("is_primary")), None)
+        # macro-generated spans (assert!, ..): walk the expansion chain back to a span inside the composed file
+        hops = 0
+        while prim and os.path.basename(prim.get("file_name", "")) != os.path.basename(out_path) and prim.get("expansion") and hops < 8:
+            prim = prim["expansion"].get("span")
+            hops += 1
         line = prim["line_start"] if prim else 0
         snippet = ""
         if prim and prim.get("text"):
